@@ -57,6 +57,11 @@ class ConstraintUniqueVecModel(ConstraintModel):
                 else:
                     and_e = btor.And(and_e, v_ne)
 
+        if and_e is None:
+            # Nothing to compare (a single vector, or vectors without 
+            # elements): the constraint places no restriction
+            and_e = btor.Const(1, 1)
+
         return and_e
     
     def _elems(self, v):
